@@ -138,25 +138,25 @@ def check(run):
                 continue
             for ob, p in probs[:2]:
                 confirmed = True
-                run.findings.append(Finding(ob.name, p.split(":")[0].split(".")[0][:40], f"program shape n,c,k,sensors={shp} (cse={cse}): {p}", {"language": "c++", "inputs": {"shape": list(shp), "seed": run.seed + 31 * t, "cse": cse, "transcendental": t % 4 == 3, "share_reading": True, "rational": t % 3 == 1, "nonsmooth": t % 5 == 2, "magnitude": t % 6 == 4, "redundant": t % 7 == 5}, "model_definition": sc.describe()}, confirmed))
+                run.findings.append(Finding(ob.name, p.split(":")[0].split(".")[0][:40], f"program shape n,c,k,sensors={shp} (cse={cse}): {p}", {"language": "c++", "inputs": {"shape": list(shp), "seed": run.seed + 31 * t, "cse": cse, "transcendental": t % 4 == 3, "share_reading": True, "rational": t % 3 == 1, "nonsmooth": t % 5 == 2, "magnitude": t % 6 == 4, "redundant": t % 7 == 5, "tiny": t % 6 == 3}, "model_definition": sc.describe()}, confirmed))
             if t < 2 and cse:
                 run.native_runs += 1
                 okc, err = cppgen.syntax_check(header, source)
                 ob = run.prove(f"C02.cxx.prog{t}.compiles_against_standin", [], z3.BoolVal(okc), function=G.FN)
                 if not okc:
-                    run.findings.append(Finding(ob.name, "compile", f"generated header/source do not compile (stand-in Eigen): {err[-400:]}", {"language": "c++", "inputs": {"shape": list(shp), "seed": run.seed + 31 * t, "cse": cse, "transcendental": t % 4 == 3, "share_reading": True, "rational": t % 3 == 1, "nonsmooth": t % 5 == 2, "magnitude": t % 6 == 4, "redundant": t % 7 == 5}}, True))
+                    run.findings.append(Finding(ob.name, "compile", f"generated header/source do not compile (stand-in Eigen): {err[-400:]}", {"language": "c++", "inputs": {"shape": list(shp), "seed": run.seed + 31 * t, "cse": cse, "transcendental": t % 4 == 3, "share_reading": True, "rational": t % 3 == 1, "nonsmooth": t % 5 == 2, "magnitude": t % 6 == 4, "redundant": t % 7 == 5, "tiny": t % 6 == 3}}, True))
                 elif shp[3]:
                     run.native_runs += 1
                     for p in compile_and_run(sc, header, source)[:1]:
                         ob2 = run.prove(f"C02.cxx.prog{t}.compiled_values", [], z3.BoolVal(False), function=G.FN)
-                        run.findings.append(Finding(ob2.name, "run", p, {"language": "c++", "inputs": {"shape": list(shp), "seed": run.seed + 31 * t, "cse": cse, "transcendental": t % 4 == 3, "share_reading": True, "rational": t % 3 == 1, "nonsmooth": t % 5 == 2, "magnitude": t % 6 == 4, "redundant": t % 7 == 5}}, True))
+                        run.findings.append(Finding(ob2.name, "run", p, {"language": "c++", "inputs": {"shape": list(shp), "seed": run.seed + 31 * t, "cse": cse, "transcendental": t % 4 == 3, "share_reading": True, "rational": t % 3 == 1, "nonsmooth": t % 5 == 2, "magnitude": t % 6 == 4, "redundant": t % 7 == 5, "tiny": t % 6 == 3}}, True))
             if len(samples) < 2:
                 samples.append({"program": sc.describe(), "generated_source_excerpt": source[:1200]})
         if refusals:
             refused_programs.append((t, shp, refusals))
             ob = run.prove(f"C02.cxx.prog{t}.accepted_with_both_cse_settings_or_neither", [], z3.BoolVal(len(refusals) == 2), function=G.FN)
             if len(refusals) == 1:
-                run.findings.append(Finding(ob.name, "acceptance", f"program shape {shp}: the generator refuses it with CSE {'on' if True in refusals else 'off'} only ({list(refusals.values())[0]})", {"language": "c++", "inputs": {"shape": list(shp), "seed": run.seed + 31 * t, "cse": True in refusals, "transcendental": t % 4 == 3, "share_reading": True, "rational": t % 3 == 1, "nonsmooth": t % 5 == 2, "magnitude": t % 6 == 4, "redundant": t % 7 == 5}, "model_definition": sc.describe()}, True))
+                run.findings.append(Finding(ob.name, "acceptance", f"program shape {shp}: the generator refuses it with CSE {'on' if True in refusals else 'off'} only ({list(refusals.values())[0]})", {"language": "c++", "inputs": {"shape": list(shp), "seed": run.seed + 31 * t, "cse": True in refusals, "transcendental": t % 4 == 3, "share_reading": True, "rational": t % 3 == 1, "nonsmooth": t % 5 == 2, "magnitude": t % 6 == 4, "redundant": t % 7 == 5, "tiny": t % 6 == 3}, "model_definition": sc.describe()}, True))
     if refused_programs:
         run.notes.append(f"{len(refused_programs)} corpus program(s) refused loudly by the generator under both CSE settings (not accepted models): {[(t, list(r.values())[0][:60]) for t, _, r in refused_programs][:3]}")
     # a definition whose symbols are spelled like CSE temporaries (_t0 is a declared control no expression mentions): must compile and be right
@@ -253,7 +253,7 @@ def replay_file(payload):
         okc, err = cppgen.syntax_check(h, s2)
         print("replay C02 (temporary-like names):", ([p for _, p in probs[:3]] + ([] if okc else [err[-200:]])) or "compiles and computes the symbolic expressions")
         return okc and not probs
-    sc = scenarios.Scenario(shp[0], shp[1], shp[2], shp[3], seed=inp["seed"], transcendental=inp.get("transcendental", False), share_reading=inp.get("share_reading", False), rational=inp.get("rational", False), nonsmooth=inp.get("nonsmooth", False), magnitude=inp.get("magnitude", False), redundant=inp.get("redundant", False))
+    sc = scenarios.Scenario(shp[0], shp[1], shp[2], shp[3], seed=inp["seed"], transcendental=inp.get("transcendental", False), share_reading=inp.get("share_reading", False), rational=inp.get("rational", False), nonsmooth=inp.get("nonsmooth", False), magnitude=inp.get("magnitude", False), redundant=inp.get("redundant", False), tiny=inp.get("tiny", False))
     run = driver.PropertyRun("C02", "quick", 0)
     probs, h, s = G.validate_program(run, sc, "replay", cse=inp.get("cse", True), ekf=inp.get("ekf", True))
     print("replay C02:", [p for _, p in probs[:4]] or "generated functions equal the symbolic expressions")
